@@ -154,7 +154,9 @@ def merge_is_intersection(led, rid, ctx):
 def set_in_reif_clauses(led, rid, ctx):
     """the clauses posted for set_in_reif over an interval mean r ⇔ lb ≤ x ≤ ub"""
     b = ctx.bin
-    f = b.fn("compile_set_in_reif")
+    from ..inline import view as _view
+    f0_ = b.fn("compile_set_in_reif")
+    f = _view(b, f0_, want=lambda g: g.file == f0_.file and g.kind != "Closure" and g.vis != "pub" and not g.name.startswith("compile_") and len(g.blocks) <= 80)
     paths = [p for p in SymExec(f, max_paths=3000).run() if not p.diverged]
     best = None
     for p in paths:
@@ -224,7 +226,9 @@ def set_in_reif_every_path(led, rid, ctx):
     representation (interval / sparse), whose decompositions F10 decides; a clause posted before
     the match is a shortcut on the variable's bounds that treats a sparse set like its hull"""
     b = ctx.bin
-    f = b.fn("compile_set_in_reif")
+    from ..inline import view as _view
+    f0_ = b.fn("compile_set_in_reif")
+    f = _view(b, f0_, want=lambda g: g.file == f0_.file and g.kind != "Closure" and g.vis != "pub" and not g.name.startswith("compile_") and len(g.blocks) <= 80)
     n = 0
     for g in f.with_closures():
         for c in g.calls:
